@@ -11,6 +11,7 @@ import (
 	"bytes"
 	"fmt"
 	"log"
+	"strings"
 	"testing"
 	"time"
 )
@@ -161,7 +162,10 @@ func TestVerif_C20(t *testing.T) {
 	}
 	c.SetExhaustive(true)
 	// random long sequences with hostile messages
-	hostile := []string{"a", "b", "", "100%", "%d %s %v", "line\n", "two\nlines", "a ", " a", "ａ", "a\x00"}
+	// long messages that differ only near their end (a frame-size mismatch names both sizes at
+	// the end of a long line), or only in length
+	long := strings.Repeat("frame rejected by the parser: expected a different size; ", 5)
+	hostile := []string{"a", long + "39040 != 38400", "b", long + "39040 != 38401", "", "100%", "%d %s %v", "line\n", "two\nlines", "a ", " a", "ａ", "a\x00", long, long + " "}
 	nrand := c.N(300, 100000)
 	for s := int64(0); s < nrand; s++ {
 		myIdx := idx
